@@ -27,6 +27,9 @@ CLAIMED = {
  "C03": ("proptest-generated well-typed terminating programs over the Sass core (variables, !default/!global, @if/@for/@each/@while, functions, mixins with all argument forms, @content using, @debug/@warn); oracle = independent reference interpreter written from the language rules, comparing per-selector declaration sequences and the logger message sequence",
          "Sampling of programs with shrinking; a green run means grass and the reference interpreter agreed on every generated program (bounded depth 4, loop bounds <= 6, <= 60 statements).",
          "2/C03"),
+ "C19": ("(a) failing inputs from C01's proptest generators x unicode on/off judged by an independent location/rendering oracle over the file texts; (b) proptest-generated logging programs that the generator evaluates itself, compared with the calls recorded by a collecting Logger (kind, file, line, text; quiet; @error = inspect); (c) worker stdout/stderr must stay empty",
+         "Sampling of failing inputs and logging programs with shrinking; a green run means every explored error was located inside the named file and rendered, and every logging program delivered exactly the expected Logger calls.",
+         "2/C19"),
  "C04": ("proptest-generated rule trees (style rules with & in every position, nested properties, @media/@supports/unknown at-rules, @at-root with/without queries); oracle = independent hand-flattening model compared as multiset, per at-rule-path order and global order",
          "Sampling of rule trees with shrinking; a green run means flattening agreed with the model on every generated tree (bounded depth 4 / width 3).",
          "2/C04"),
